@@ -21,9 +21,9 @@ def faultClass (d : Disk) (op : FsOp) (r : Res) : String :=
   | .write _ off cs =>
     (match cs.head? with
      | some (.fh _ _) =>
-       if (d.main.map List.length).getD 0 ≤ 64 then "C25-failed-create-bricks-swamp"
+       if (d.main.map List.length).getD 0 ≤ 64 then "C25-failed-create-drops-batch"
        else "C25-failed-header-rewrite-overwrites-file"
-     | some (.nm _) => "C25-failed-create-bricks-swamp"
+     | some (.nm _) => "C25-failed-create-drops-batch"
      | some (.bh _ _) => if r == .err then "C25-failed-write-drops-entries" else "C25-partial-block-strands-later-writes"
      | _ => if off == 0 then "C25-failed-header-rewrite-overwrites-file" else "C25-partial-block-strands-later-writes")
   | .sync _ => "C25-fsync-error"
@@ -36,8 +36,22 @@ def pushR (s : DS) (ops : List (FsOp × Res)) : DS :=
       | none => if o.2.isOk then none else some (faultClass s.mdisk o.1 o.2)
     { s with mops := s.mops ++ [o.1], mres := s.mres ++ [showRes o.2], mdisk := s.mdisk.applyRes o.1 o.2, firstFault := ff }) s
 
+/-- name the defect by what the file looks like at the end, not only by the first fault -/
+def lossClass (s : DS) : String :=
+  match s.mdisk.main with
+  | none => "C25-failed-create-bricks-swamp"
+  | some f =>
+    match headerOf f with
+    | none => if f.length < 64 then "C25-failed-create-bricks-swamp" else "C25-failed-header-rewrite-overwrites-file"
+    | some nl =>
+      if f.length < 64 + nl then "C25-failed-create-bricks-swamp"
+      else match validLen f with
+        | some keep => if keep < f.length then "C25-partial-block-strands-later-writes"
+                       else s.firstFault.getD "C25-unexplained-loss"   -- a clean file that lacks records
+        | none => "C25-failed-create-bricks-swamp"
+
 def flagLoad (s : DS) (st : Index) : String :=
-  if sameIndex st s.spec then "" else "\t#F:" ++ (s.firstFault.getD "C25-unexplained-loss")
+  if sameIndex st s.spec then "" else "\t#F:" ++ lossClass s
 
 def hooks : Hooks where
   expectAt := fun s _ _ => s.spec
@@ -62,6 +76,11 @@ def step (s0 : DS) (line : String) : DS × String :=
     let out := cCloseF s.cfg s.fc s.mk' ⟨s.cs, s.mdisk, s.rs⟩
     let s1 := pushR s out.ops
     ({ s1 with cs := out.st.cs, rs := [] }, if out.failed then "ok err" else "ok ok")
+  | ["act", "compact", ep, order] =>
+    let e := epOf ep
+    let out := cCompactF s.cfg s.fc s.mk' ⟨s.cs, s.mdisk, s.rs⟩ e (parseOrder order) (order == "skip")
+    let s1 := pushR s out.ops
+    ({ s1 with cs := out.st.cs, rs := [] }, "ok")
   | _ => Driver.BStor.step hooks s0 line
 
 def cfgOfArgs (kv : List (String × String)) : Cfg :=
